@@ -517,16 +517,97 @@ func evalCrypter(d crypterDesc) ev.Result {
 	return ev.Failf("accepted-different-content:"+d.Tamper.Op, "%s tamper %s(%d): Decrypt accepted the altered message and returned %x… instead of the sender's plaintext", tag, d.Tamper.Op, d.Tamper.Arg, pt[:min(len(pt), 24)])
 }
 
+// ---- IV freshness over many messages ------------------------------------------------------
+
+type ivDesc struct {
+	Cipher  int64 `json:"cipher"`
+	ToOwner bool  `json:"to_owner"`
+	N       int   `json:"n"`
+}
+
+// evalIVs: one session protects N small messages; all N initialisation vectors must be
+// distinct. An IV with little randomness in it (a counter block left at zero, a truncated random
+// read, ...) looks fine on any two messages and repeats only after about 2^(bits/2) of them:
+// with N = 150 000 an IV carrying 32 random bits collides with probability > 90 %.
+func evalIVs(d ivDesc) ev.Result {
+	cipher := kex.CipherSuiteID(d.Cipher)
+	cref, ok := cipherTable[cipher]
+	if !ok {
+		return ev.Result{Skip: true}
+	}
+	p, err := getPair(kex.ECDH256Suite, cipher, 0)
+	if err != nil {
+		return ev.Failf("kex", "ECDH256/%s: %v", cipher, err)
+	}
+	snd := p.a
+	if d.ToOwner {
+		snd = p.b
+	}
+	n := min(max(d.N, 2), 2000000)
+	seen := make(map[string]int, n)
+	zeroAt := make([]bool, cref.ivLen) // byte positions that were zero in every IV so far
+	for i := range zeroAt {
+		zeroAt[i] = true
+	}
+	tag := fmt.Sprintf("ECDH256/%s to_owner=%v", cipher, d.ToOwner)
+	for i := 0; i < n; i++ {
+		enc, err := snd.Encrypt(rand.Reader, []byte{byte(i)})
+		if err != nil {
+			return ev.Failf("encrypt", "%s: %v", tag, err)
+		}
+		wire, err := cbor.Marshal(enc)
+		if err != nil {
+			return ev.Failf("encrypt", "%s: %v", tag, err)
+		}
+		var iv []byte
+		if i < 64 {
+			var why string
+			if iv, why = checkShape(wire, cref); why != "" {
+				return ev.Failf("wire-shape", "%s: %s", tag, why)
+			}
+		} else if iv = fastIV(wire, cref.ivLen); iv == nil {
+			var why string
+			if iv, why = checkShape(wire, cref); why != "" {
+				return ev.Failf("wire-shape", "%s: %s", tag, why)
+			}
+		}
+		if j, dup := seen[string(iv)]; dup {
+			return ev.Failf("iv-reuse", "%s: messages #%d and #%d of one session carry the same IV %x (%d messages sent)", tag, j, i, iv, i+1)
+		}
+		seen[string(iv)] = i
+		for k, b := range iv {
+			if b != 0 {
+				zeroAt[k] = false
+			}
+		}
+	}
+	_ = zeroAt
+	res := ev.OK(fmt.Sprintf("iv-freshness/%s/n=%d", cipher, n))
+	res.ID = fmt.Sprintf("%d|%v|%d", d.Cipher, d.ToOwner, n)
+	return res
+}
+
+// fastIV finds the IV header (label 5, bstr of ivLen bytes) without a full parse: 0x05, then the
+// byte-string head; nil if not found exactly once.
+func fastIV(wire []byte, ivLen int) []byte {
+	pat := []byte{0x05, byte(0x40 + ivLen)}
+	i := bytes.Index(wire, pat)
+	if i < 0 || i+2+ivLen > len(wire) || bytes.Index(wire[i+1:], pat) >= 0 {
+		return nil
+	}
+	return wire[i+2 : i+2+ivLen]
+}
+
 // ---------------------------------------------------------------------------
 // layer 2: full TO2 with a man-in-the-middle
 // ---------------------------------------------------------------------------
 
 type tunnelDesc struct {
-	Cfg     deploy.Config `json:"config"`
-	Victim  int           `json:"victim"`   // index among the protected messages of the run (requests 66.. and responses 65..)
-	OnReq   bool          `json:"on_req"`   // tamper the request (owner must reject) or the response (device must reject)
-	Tamper  tamper        `json:"tamper"`
-	PayloadSize int       `json:"payload_size"`
+	Cfg         deploy.Config `json:"config"`
+	Victim      int           `json:"victim"` // index among the protected messages of the run (requests 66.. and responses 65..)
+	OnReq       bool          `json:"on_req"` // tamper the request (owner must reject) or the response (device must reject)
+	Tamper      tamper        `json:"tamper"`
+	PayloadSize int           `json:"payload_size"`
 }
 
 func evalTunnel(d tunnelDesc) ev.Result {
@@ -796,6 +877,27 @@ func TestC05(t *testing.T) {
 			}
 		}
 	}, evalCrypter)
+
+	r.SetRule("iv-freshness", "exhaustive over the 7 cipher suites × direction: one session protects 150 000 (quick) / 600 000 (thorough) one-byte messages and all initialisation vectors must be pairwise distinct (an IV with only 32 random bits collides with probability > 90 % / ≈ 100 % at these volumes; two consecutive messages never show it)")
+	ev.Enum(r, "iv-freshness", true, func(yield func(ivDesc) bool) {
+		i := 0
+		n := 150000
+		if r.Thorough() {
+			n = 600000
+		}
+		for _, cid := range []kex.CipherSuiteID{kex.A128GcmCipher, kex.A192GcmCipher, kex.A256GcmCipher, kex.CoseAes128CbcCipher, kex.CoseAes128CtrCipher, kex.CoseAes256CbcCipher, kex.CoseAes256CtrCipher} {
+			c := int64(cid)
+			for _, to := range []bool{false, true} {
+				i++
+				if !r.Mine(i) {
+					continue
+				}
+				if !yield(ivDesc{Cipher: c, ToOwner: to, N: n}) {
+					return
+				}
+			}
+		}
+	}, evalIVs)
 
 	r.SetRule("crypter-random", "rapid: suite × cipher × direction × payload size 0..3000 × tamper operator with random argument (bit position over the whole message); same oracle as crypter-matrix")
 	ev.Rapid(r, "crypter-random", ev.N{Quick: 30000, Thorough: 1500000}, func(t *rapid.T) crypterDesc {
